@@ -1825,14 +1825,14 @@ class FloatData(Data[float]):
             printer.print_string(f"{self.data}")
 
     def __eq__(self, other: object):
-        # avoid triggering `float('nan') != float('nan')` inequality
-        return isinstance(other, FloatData) and (
-            (math.isnan(self.data) and math.isnan(other.data))
-            or self.data == other.data
-        )
+        # Compare bit patterns: `float('nan') != float('nan')` and `0.0 == -0.0`,
+        # while attributes are equal exactly when their payloads are the same.
+        return isinstance(other, FloatData) and struct.pack(
+            "<d", self.data
+        ) == struct.pack("<d", other.data)
 
     def __hash__(self):
-        return hash(self.data)
+        return hash(struct.pack("<d", self.data))
 
 
 _FloatAttrTypeCovT = TypeVar(
